@@ -161,3 +161,13 @@ add("nest-global-struct-with-arrays", _T + "T gt;\n" + fn("int i) -> float", ["g
 add("nest-local-array-of-vectors", fn("int i) -> float", ["float3[2] vs;", "int2[3] ws;", "float3x3[2] ms;", "vs[i % 2].z = 1.5;", "ws[2].x = 3;", "ms[1][2][i % 3] = 0.5;", "return vs[0].z + vs[1].z + ws[2].x + ms[1][2][0];"]))
 add("nest-struct-copy-with-nested", fn("int i) -> float", ["T t;", "T u;", "t.items[1].a = 4.5;", "u = t;", "u.items[1].a = 1.0;", "P q = t.items[1];", "q.a = 9.0;", "return t.items[1].a + u.items[1].a + q.a;"], _T))
 add("nest-param-struct-with-array-of-struct", _T + "function h(T t, int i) -> float\n{\n  t.items[i % 2].a = 3.0;\n  return t.items[0].a + t.items[1].a;\n}\n" + fn("int i) -> float", ["T t;", "return h(t, i) + t.items[0].a;"]))
+
+# ---- an index expression of float type in every position an index can stand in (rejected today; if a front end ever lets one
+# through, the run must not end in a Python TypeError)
+_FI = "function g(int q) -> int\n{\n  return q + 1;\n}\n"
+for _name, _body in [("plain", ["int[3] t;", "return t[a];"]), ("first-of-two", ["int[2][3] t;", "return t[a][i % 3];"]), ("second-of-two", ["int[2][3] t;", "return t[i % 2][a];"]),
+                     ("matrix-row", ["float3x3 m;", "return m[a][1];"]), ("matrix-col", ["float3x3 m;", "return m[1][a];"]), ("index-of-index", ["int[3] t;", "float[3] u;", "return t[u[a]];"]),
+                     ("inner-float", ["int[3] t;", "int[3] u;", "return t[u[a] % 3];"]), ("call-argument", ["int[3] t;", "return g(t[a]);"]), ("store", ["int[3] t;", "t[a] = i;", "return t[0];"]),
+                     ("compound", ["int[3] t;", "t[a] += i;", "return t[0];"]), ("vector", ["float3 v;", "return v[a];"]), ("struct-field", ["S0 s;", "int[2] t;", "return t[s.b];"]),
+                     ("expr", ["int[3] t;", "return t[a * 2.0];"]), ("member-array", ["S1 s;", "return s.arr[a];"])]:
+    add("floatidx-" + _name, fn("float a, int i) -> float", _body, (S2 if "S1" in " ".join(_body) else S) + _FI))
